@@ -320,7 +320,19 @@ func (g *gen) genError(typs []types.Type) error {
 		p.P("return %s, err", strings.Join(zeros, ", "))
 		p.Out()
 		p.P("}")
-		p.P("return f()")
+		// when f fails only its error is passed on, just like for the error that was passed in,
+		// and not the values that f returns next to its error.
+		vs := make([]string, len(outTyps))
+		for i := range vs {
+			vs[i] = "v" + strconv.Itoa(i)
+		}
+		p.P("%s, err := f()", strings.Join(vs, ", "))
+		p.P("if err != nil {")
+		p.In()
+		p.P("return %s, err", strings.Join(zeros, ", "))
+		p.Out()
+		p.P("}")
+		p.P("return %s, nil", strings.Join(vs, ", "))
 		p.Out()
 		p.P("}")
 	}
